@@ -224,7 +224,9 @@ func execC02(seg []Ev) []Ev {
 		var err error
 		parsedText := ""
 		oc, det := guarded(func() {
-			if entry == "tokens" {
+			if entry == "origtokens" {
+				err = p.SetOriginalTokens(lex)
+			} else if entry == "tokens" {
 				given := lex
 				kp.keep("token list that was given to ParseTokens", func() string { return tokRender(given) })
 				err = p.ParseTokens(lex)
@@ -255,10 +257,10 @@ func execC02(seg []Ev) []Ev {
 				err = p.ParseString(parsedText)
 			}
 		})
-		if entry != "tokens" {
+		if entry != "tokens" && entry != "origtokens" {
 			e["text"] = parsedText
 		}
-		if entry != "tokens" && oc == "ok" {
+		if entry != "tokens" && entry != "origtokens" && oc == "ok" {
 			// the lexical tokens of that text, from a separate tokenizer of the parser's kind
 			toks = toks[:0]
 			for _, t := range lexTokens(parsedText) {
@@ -476,6 +478,9 @@ func genC02(g *Gen) {
 		}
 		if i%9 == 0 {
 			entry = "stringc"
+		}
+		if i%9 == 4 {
+			entry = "origtokens"
 		}
 		run("mutated valid expressions", entry, ts)
 	}
